@@ -2,6 +2,7 @@ import Driver.Util
 import Manticore.Model.SmbCmd
 import Manticore.Model.SmbCodecs
 import Manticore.Gen.SmbCommands
+import Manticore.Spec.Cifs
 namespace Driver.Smb
 open Manticore Manticore.SmbIR Driver
 
@@ -53,6 +54,46 @@ def findCmd (name : String) : Option Cmd := Manticore.Gen.SmbCommands.commands.f
 
 def C := Manticore.SmbCodecs.std
 
+/-- first field (declaration order) on which two environments differ -/
+def firstDiff (c : Cmd) (a b : Env) : Option String :=
+  (c.fields.find? (fun (f, _) => a.get f != b.get f)).map (·.1)
+
+/-- canonical result of the round-trip op, shared by model and harness:
+    `ok eq|diff:<field> same|reenc-diff` -/
+def rtLine (c : Cmd) (env0 env : Env) : String :=
+  match encodeCmd C c env, envAfterMarshal C c env with
+  | .ok bs, .ok env' =>
+    (match decodeCmd C c env0 bs with
+      | .ok d =>
+        let fd := match firstDiff c env' d with | some f => "diff:" ++ f | none => "eq"
+        let re := match encodeCmd C c d with
+          | .ok bs2 => if bs2 == bs then "same" else "reenc-diff"
+          | .err => "reenc-err"
+          | .panic => "reenc-panic"
+        "ok " ++ fd ++ " " ++ re
+      | .err => "err-decode"
+      | .panic => "panic")
+  | .panic, _ => "panic"
+  | _, _ => "err"
+
+/-- byte range `[lo, hi)` of a fixed-width field's slot inside the encoded command -/
+def slotRange (c : Cmd) (f : String) : Option (Nat × Nat) := do
+  let m ← layoutM c.marshal
+  let rec go (ss : List Slot) (pOff dOff : Nat) : Option (Blk × Nat × Nat) :=
+    match ss with
+    | [] => none
+    | .int b w _ g :: r =>
+      if g == f then some (b, (if b == .P then pOff else dOff), w)
+      else if b == .P then go r (pOff + w) dOff else go r pOff (dOff + w)
+    | .u8 b g :: r =>
+      if g == f then some (b, (if b == .P then pOff else dOff), 1)
+      else if b == .P then go r (pOff + 1) dOff else go r pOff (dOff + 1)
+    | _ :: _ => none     -- a variable-width slot before it: offset depends on values
+  let (b, off, w) ← go (m.filter (·.blk == .P) ++ m.filter (·.blk == .D)) 0 0
+  match b with
+  | .P => some (1 + (andxBytes c.isAndX).length + off, 1 + (andxBytes c.isAndX).length + off + w)
+  | .D => none
+
 def entries : List Entry := [
   -- marshal a command built from the given field values
   { kind := "M", op := "smb.enc", run := fun
@@ -69,20 +110,60 @@ def entries : List Entry := [
         let b ← fromHex h
         pure (showOutcomeWith (showEnv c) (decodeCmd C c env0 b))
       | _ => none },
-  -- marshal, then unmarshal into a fresh command: prints the fields after Marshal and the decoded fields
+  -- marshal, unmarshal into a fresh command, compare fields, marshal again, compare bytes
   { kind := "M", op := "smb.rt", run := fun
       | [name, e0, e] => do
         let c ← findCmd name
-        let env0 ← parseEnv e0
+        pure (rtLine c (← parseEnv e0) (← parseEnv e))
+      | _ => none },
+  -- C04 specification: a consistent assignment survives the round trip and re-encodes identically
+  { kind := "S", op := "smb.rt", run := fun
+      | [name, _, e] => do
+        let c ← findCmd name
         let env ← parseEnv e
-        pure (match encodeCmd C c env, envAfterMarshal C c env with
-          | .ok bs, .ok env' =>
-            (match decodeCmd C c env0 bs with
-              | .ok d => "ok " ++ showEnv c env' ++ " " ++ showEnv c d
-              | .err => "err-decode"
-              | .panic => "panic")
-          | .panic, _ => "panic"
+        let key := knownRt c
+        pure ((if consistent C c env then "ok eq same" else "*") ++ (if key.isEmpty then "" else " #" ++ key))
+      | _ => none },
+  -- C05 specification: the bytes MS-CIFS prescribes for these field values
+  { kind := "S", op := "smb.enc", run := fun
+      | [name, e] => do
+        let c ← findCmd name
+        let env ← parseEnv e
+        let env' := match envAfterMarshal C c env with | .ok x => x | _ => env   -- formats/lengths set by Marshal
+        let key := knownEnc c env'
+        pure ((match Manticore.Spec.Cifs.encode c env' with
+          | some bs => okHex bs
+          | none => "*") ++ (if key.isEmpty then "" else " #" ++ key))
+      | _ => none },
+  -- C07 specification: any bytes whatsoever give a value or an error
+  { kind := "S", op := "smb.dec", run := fun
+      | [_, _, _] => some "*"
+      | _ => none },
+  -- C04 slot locality: complementing one fixed-width field changes exactly the bytes of its slot
+  { kind := "M", op := "smb.slot", run := fun
+      | [name, e, f] => do
+        let c ← findCmd name
+        let env ← parseEnv e
+        let w ← (c.typeOf f).bind typeWidth
+        let x ← match env.get f with | some (.n x) => some x | _ => none
+        let env2 := env.set f (.n (256 ^ w - 1 - x))
+        pure (match encodeCmd C c env, encodeCmd C c env2 with
+          | .ok a, .ok b =>
+            if a.length != b.length then "ok length-changed" else
+            let idx := (List.range a.length).filter (fun i => a[i]? != b[i]?)
+            (match idx.head?, idx.getLast? with
+              | some lo, some hi => s!"ok {lo} {hi + 1} {idx.length}"
+              | _, _ => "ok none")
+          | .panic, _ => "panic" | _, .panic => "panic"
           | _, _ => "err")
+      | _ => none },
+  { kind := "S", op := "smb.slot", run := fun
+      | [name, e, f] => do
+        let c ← findCmd name
+        let _ ← parseEnv e
+        pure (match slotRange c f with
+          | some (lo, hi) => s!"ok {lo} {hi} {hi - lo}"
+          | none => "*")
       | _ => none }
 ]
 end Driver.Smb
